@@ -5,6 +5,7 @@
 package c20
 
 import (
+	"encoding/json"
 	"errors"
 	"fmt"
 	"strconv"
@@ -100,6 +101,7 @@ type caseSpec struct {
 	wildcard   bool // unmarshal, asymmetric TypeHelper: the listed value leaves the payload open
 	nilExpect  bool // unmarshal, slice and map kinds: the case lists a nil value (an empty non-nil result differs from it)
 	other      bool // interface-typed T: the value of this case is a *Q instead of a *P
+	emptyData  bool // marshal direction: the case expects no data at all ("" / nil); only a marshaler that returns (nil, nil) matches
 }
 
 // ways a wrong result differs
@@ -109,10 +111,11 @@ const (
 	wShort        // right without its last byte
 	wSpace        // " " + right
 	wUpper        // right with ASCII letters upper-cased
+	wJSONEquivalent // JSON marshal helper only: the same JSON value, other key order, spacing and number form
 	numWrong
 )
 
-var wrongNames = [...]string{"+~", "+newline", "-last byte", "space+", "upper-cased"}
+var wrongNames = [...]string{"+~", "+newline", "-last byte", "space+", "upper-cased", "json-equivalent"}
 
 func wrongOf(s string, kind int) string {
 	switch kind {
@@ -158,6 +161,9 @@ func (c caseSpec) sig() string {
 	if c.other {
 		nv += ",concrete-type=*Q"
 	}
+	if c.emptyData {
+		nv += ",listed-data=empty"
+	}
 	return fmt.Sprintf("constraint=%d,beh=%s,before=%s,after=%s,pred=%s%s", c.constraint, behNames[c.beh], hookNames[c.before], hookNames[c.after], predNames[c.pred], nv)
 }
 
@@ -186,6 +192,32 @@ func (c caseSpec) isPanic() bool {
 // data is what the case lists as expected data / input data: "<index>|<payload>".
 func (c caseSpec) data(i int) string { return strconv.Itoa(i) + "|" + c.payload }
 
+// marshalData is what a marshal helper is told to expect and what a right marshaler returns.
+// For the JSON marshal helper it is a JSON document, so that "the same JSON value written
+// differently" exists as a way of being wrong; an "empty" case expects no data at all.
+func (c caseSpec) marshalData(i int, jsonDoc bool) string {
+	if c.emptyData {
+		return ""
+	}
+	if jsonDoc {
+		b, _ := json.Marshal(c.payload)
+		return fmt.Sprintf(`{"c":%d,"p":%s}`, i, b)
+	}
+	return c.data(i)
+}
+
+// wrongMarshalData is marshalData gone wrong in the case's way.
+func (c caseSpec) wrongMarshalData(i int, jsonDoc bool) string {
+	if c.emptyData {
+		return "unexpected"
+	}
+	if jsonDoc && c.wrongKind == wJSONEquivalent {
+		b, _ := json.Marshal(c.payload)
+		return fmt.Sprintf("{ \"p\": %s,\n  \"c\": %d.0 }", b, i)
+	}
+	return wrongOf(c.marshalData(i, jsonDoc), c.wrongKind)
+}
+
 // ---------------------------------------------------------------------------------------
 // the list in progress (the harness is single-threaded per process; with the Goexit
 // environment the helper runs on its own goroutine and is awaited before anything else)
@@ -199,6 +231,7 @@ type listRun struct {
 	specs    []caseSpec
 	enc      int
 	events   []event
+	jsonDoc  bool     // JSON marshal helper: expected data are JSON documents
 	badIndex []string // hooks that were handed an index other than their case's position
 	lastSeen int      // index of the most recent collaborator invocation, -1 before any
 	failures []int
@@ -330,9 +363,12 @@ func doMarshal(caseNo int) ([]byte, error) {
 	s := l.specs[i]
 	switch s.beh {
 	case bRight:
-		return []byte(s.data(i)), nil
+		if s.emptyData {
+			return []byte("unexpected"), nil // there is no "right" data for a case that expects none
+		}
+		return []byte(s.marshalData(i, l.jsonDoc)), nil
 	case bWrong:
-		return []byte(wrongOf(s.data(i), s.wrongKind)), nil
+		return []byte(s.wrongMarshalData(i, l.jsonDoc)), nil
 	case bError:
 		return nil, errors.New(s.errHead(i))
 	case bErrorWithData:
@@ -464,6 +500,9 @@ func kindCase(v string) int {
 	}
 	return 0
 }
+
+// Equal is lenient on purpose (case-insensitive): a helper must not take it for equality.
+func (s Str) Equal(o Str) bool { return strings.EqualFold(string(s), string(o)) }
 
 func (s Str) MarshalText() ([]byte, error)   { return doMarshal(kindCase(string(s))) }
 func (s Str) MarshalBinary() ([]byte, error) { return doMarshal(kindCase(string(s))) }
